@@ -88,6 +88,9 @@ pub fn run3(k: &str, a: &Value) -> Option<Value> {
             };
             json!(c.iter().map(|v| fo(*v)).collect::<Vec<_>>())
         }
+        #[cfg(not(feature = "hooks"))]
+        "circle_fit_eval" => json!({"hooks_unavailable": true}),
+        #[cfg(feature = "hooks")]
         "circle_fit_eval" => {
             let pts: Vec<Point2> = a["pts"].as_array().unwrap().iter().map(p2).collect();
             let mode = if a["sigma"].is_null() { BestFit::All } else { BestFit::Gaussian(f(&a["sigma"])) };
@@ -107,6 +110,9 @@ pub fn run4(k: &str, a: &Value) -> Option<Value> {
         json!({"mins": [fo(b.mins.x), fo(b.mins.y)], "maxs": [fo(b.maxs.x), fo(b.maxs.y)]})
     }
     Some(match k {
+        #[cfg(not(feature = "hooks"))]
+        "line_circle" => json!({"hooks_unavailable": true}),
+        #[cfg(feature = "hooks")]
         "line_circle" => {
             let c = circle(&a["c"]);
             if a["kind"].as_str().unwrap() == "ray" {
